@@ -489,6 +489,36 @@ def corner_programs():
     return out
 
 
+def short_name_programs():
+    """a LOCAL (or control) whose name is the short name of a declared Report variable is a different variable (round 6: the scope
+    lookup fell back to "Report." + name, so the local shared the report register)"""
+    out = []
+    for decl in ("(Report (acked 0) (rtt 5))", "(Report.acked 0) (Report.rtt 5)", "(Report (volatile acked 0)) (Report.rtt 5)"):
+        out.append("(def %s (c 1)) (when true (:= acked 7) (:= Report.acked (+ acked 1)) (:= rtt (+ Report.rtt 2)) (:= Report.rtt (+ rtt acked)) (report))" % decl)
+        out.append("(def %s (acked 3)) (when true (:= rtt 9) (:= Report.acked (+ acked rtt)) (:= acked (+ acked 1)) (report))" % decl)
+        out.append("(def %s) (when (> Ack.bytes_acked 0) (:= l1 1) (:= acked (+ l1 1)) (:= l2 (+ acked 1)) (:= Report.rtt (+ l2 acked)) (report))" % decl)
+    # a member of the Report block whose OWN name starts with "Report." (or is "Report"-like) keeps it: (Report (Report.x 0)) declares
+    # Report.Report.x, not Report.x (round 6: the qualifier was trimmed from block members before being added)
+    out.append("(def (Report (Report.x 0) (y 1))) (when true (:= Report.Report.x (+ Report.y 4)) (:= Report.x 9) (report))")
+    out.append("(def (Report (Report.x 3) (x 4) (Reportx 5) (Report.Report.z 6))) (when true (:= Report.x (+ Report.Report.x Report.Reportx)) (report))")
+    out.append("(def (Report (x 1)) (Report.Report.x 2) (Report.x.Report. 3)) (when true (:= Report.x (+ Report.Report.x 1)) (report))")
+    return out
+
+
+def multibyte_comment_sweep(lo=0, hi=600):
+    """a valid program with a comment that holds a multi-byte character lying across every byte offset lo..hi of the source text
+    (round 6: a log line sliced the first 256 bytes of the program text - a panic when the cut falls inside a character)"""
+    for off in range(lo, hi):
+        for ch in ("\u00e9", "\u20ac", "\U0001F600")[: 3 if off % 16 == 0 else 1]:
+            head = "(def (Report (x 0))) "
+            pad = off - len(head) - 2
+            if pad < 0:
+                src = "# " + "a" * max(0, off - 2) + ch + " z\n" + head + "(when true (:= Report.x %d) (report))" % off
+            else:
+                src = head + "# " + "a" * pad + ch + " z\n(when true (:= Report.x %d) (report))" % off
+            yield src
+
+
 def semantic_corner_programs():
     """corner programs whose MEANING matters (run on the datapath by C01): declared booleans, literals at the representation limits"""
     out = []
@@ -497,6 +527,7 @@ def semantic_corner_programs():
         out.append("(def (Report (x 0)) %s) (when (&& %s true) (:= Report.x (+ Report.x 1)) (:= %s false) (report))" % (decl, nm, nm))
         out.append("(def (Report (x 0)) %s) (when true (:= %s (> Ack.bytes_acked 5)) (fallthrough)) (when (|| %s false) (:= Report.x 7) (report))" % (decl, nm, nm))
         out.append("(def (Report (x 0)) %s) (when (|| %s false) (:= Report.x (+ Report.x 100)) (:= %s false) (report)) (when true (:= Report.x (+ Report.x 1)) (:= %s true) (report))" % (decl, nm, nm, nm))
+    out.extend(short_name_programs())
     # F11 regression shapes: a local first bound to a never-assigned name, then bound again (each must keep its own register)
     out.append("(def (Report (acked 0)) (c 0)) (when true (:= x y) (:= x 3) (:= Report.acked x) (report))")
     out.append("(def (Report (a 0) (b 0))) (when true (bind p q) (bind p 5) (bind q 6) (:= Report.a p) (:= Report.b q) (report))")
